@@ -138,6 +138,8 @@ def _block(r, g, arrs, fns, pref, depth, n, kparam, ctr):
         elif x < 0.60 and depth < 4:
             ops.append({"op": "ctx", "body": _block(r, g, arrs, fns, _pref(r), depth + 1, r.randrange(1, 5), None, ctr),
                         "exit": "ret" if r.random() < 0.7 else ["raise", r.choice(EXITS)]})
+            if r.random() < 0.3:  # a kept context-manager object, entered again later or re-entrantly by a nested block
+                ops[-1]["obj"] = r.choice(("o1", "o1", "o2"))
         elif depth < 4:
             fid = r.choice(sorted(fns))
             f = fns[fid]
